@@ -159,7 +159,7 @@ Fixpoint contains_bad (v : gval) : bool :=
   | _ => false
   end.
 
-Lemma ref_find_zero refs i : ref_find refs 0 i = None.
+Lemma ref_find_zero refs k0 i : ref_find refs 0 k0 i = None.
 Proof. revert i. induction refs as [|[a k] r IH]; intros i; cbn [ref_find]; [reflexivity|]. rewrite andb_false_r. apply IH. Qed.
 Lemma check_ref_zero st k : exists st1, check_ref st k 0 = (None, st1).
 Proof. unfold check_ref. rewrite ref_find_zero. eexists; reflexivity. Qed.
